@@ -618,9 +618,14 @@ func (m *Monitors) onERS(inv *simapi.Invocation, out kit.Outcome) {
 				m.viol("C09", "C09.spacing", map[string]string{"role": role}, inv, map[string]any{"gap": gap.String(), "reconcileFrequency": freq.String()})
 			}
 		}
-		if statusWrite != nil && statusWrite.Outcome == simapi.OutOK {
+		switch {
+		case statusWrite != nil && statusWrite.Outcome == simapi.OutOK:
 			m.lastAction[key] = now
-		} else {
+		case statusWrite == nil && !inv.Dead && inv.Panic == "":
+			// the sync acted on pods and returned without even attempting a status write: no status write
+			// failed, so the premise still holds and the next acting sync is judged against this one
+			m.lastAction[key] = now
+		default:
 			delete(m.lastAction, key) // premise "as long as its status writes succeed" broken
 		}
 	}
